@@ -108,6 +108,29 @@ func checkC04(cx *Ctx, r *Report) {
 			r.Check(bad == "", "R-ORDER", key, w.InstrPos(c), "only the signature itself is attached after signing", bad)
 		}
 	}
+	// a signature that could not be made is an error all the way up: in the signing code every call that reports an
+	// error - the xmlsig / goxmldsig signers included - has it tested and propagated (a swallowed signer error sends
+	// the message with a nil signature)
+	{
+		ss := map[*ssa.Function]bool{}
+		for _, k := range []string{"provider.createSignature", "signature.Create", "signature.CreateRedirect", "signature.GetSigner", "signature.GetSigningContextAndSigAlg", "provider.(*Provider).GetMetadata"} {
+			if f := w.Func(k); f != nil {
+				w.refClosure(f, ss)
+			}
+		}
+		cx.errAll = true
+		for _, f := range w.sortedFuncs(ss) {
+			res := f.Signature.Results()
+			if res.Len() == 0 || !isErrorType(res.At(res.Len()-1).Type()) || f.Pkg == nil {
+				continue
+			}
+			if pk := shortPkg(f.Pkg.Pkg.Path()); pk != "provider" && pk != "signature" {
+				continue
+			}
+			cx.checkErrPropagation(r, "R-ERR", "signing:"+w.FuncKey(f), f)
+		}
+		cx.errAll = false
+	}
 	if nSignSites < 5 {
 		r.Fail("R-ORDER", "#signing-sites", "", fmt.Sprintf("only %d signing call sites found in handler-reachable code", nSignSites))
 	}
